@@ -767,3 +767,35 @@ func FillEmptyNamespaces(m protoreflect.Message, v string) {
 	}
 }
 
+
+// DuplicateListBlobs appends, to every repeated event-blob field that holds at least one blob, a copy of its first
+// blob (so that a list carries two blobs with the same content: "only the first matching blob is handled" shows up).
+func DuplicateListBlobs(m protoreflect.Message) {
+	m.Range(func(fd protoreflect.FieldDescriptor, v protoreflect.Value) bool {
+		if fd.IsMap() {
+			if fd.MapValue().Message() != nil {
+				v.Map().Range(func(_ protoreflect.MapKey, mv protoreflect.Value) bool { DuplicateListBlobs(mv.Message()); return true })
+			}
+			return true
+		}
+		if fd.Message() == nil {
+			return true
+		}
+		if fd.Message().FullName() == dataBlobName {
+			if fd.IsList() && EventBlobFields[string(fd.FullName())] && v.List().Len() > 0 {
+				first := v.List().Get(0).Message().Interface().(*commonpb.DataBlob)
+				cp := proto.Clone(first).(*commonpb.DataBlob)
+				v.List().Append(protoreflect.ValueOfMessage(cp.ProtoReflect()))
+			}
+			return true
+		}
+		if fd.IsList() {
+			for i := 0; i < v.List().Len(); i++ {
+				DuplicateListBlobs(v.List().Get(i).Message())
+			}
+		} else {
+			DuplicateListBlobs(v.Message())
+		}
+		return true
+	})
+}
